@@ -267,7 +267,7 @@ def check(rng, deep):
         n += 1
         a = m.pair_het.impulse_nonlinear(ssh, sh)
         b = m.pair_stage.impulse_nonlinear(sst, sh)
-        dev = max(np.abs(a[k] - b[k]).max() for k in ('A', 'C', 'UC'))
+        dev = max(np.abs(a[k] - b[k]).max() for k in ('A', 'C', 'UC', 'AINC', 'VPU'))      # VPU: a hetoutput that reads a backward variable (its own date's value, not the continuation value)
         if dev > 1e-8:
             C.push(out, dict(what='stage-block nonlinear path differs from the backward-function block (which matches the reference recursion)', input=dict(kind='recursion', block='stage', shocked=sorted(sh)),
                              observed=float(dev), signature=dict(op='stage-recursion', pulse=any(v[0] == 0 and np.any(v != 0) for v in sh.values()))))
@@ -277,7 +277,7 @@ def check(rng, deep):
     n += 1
     a = m.pair_het.impulse_nonlinear(ssh, {'r': np.zeros(T)}, ss_initial=ssh0)
     b = m.pair_stage.impulse_nonlinear(sst, {'r': np.zeros(T)}, ss_initial=sst0)
-    dev = max(np.abs(a[k] - b[k]).max() for k in ('A', 'C', 'UC'))
+    dev = max(np.abs(a[k] - b[k]).max() for k in ('A', 'C', 'UC', 'AINC', 'VPU'))
     if dev > 1e-6 or np.abs(b['A']).max() < 1e-4:
         C.push(out, dict(what='with a distinct initial steady state the stage-block path differs from the backward-function block (or ignores the initial distribution)', input=dict(kind='recursion', block='stage', distinct_initial=True),
                          observed=float(dev), signature=dict(op='stage-recursion', distinct_initial=True)))
